@@ -89,6 +89,10 @@ type Exec struct {
 	Reached   map[string]bool
 	FuncSteps map[string]int
 	initing   map[*ssa.Package]bool
+	timers    []*CtxV
+	ctxSeq    int
+	bgCtx     *CtxV
+	timerFires int
 
 	Sc           *Sched
 	PreemptBound int
@@ -1088,6 +1092,8 @@ func (e *Exec) binop(op token.Token, a, b Value, t types.Type) Value {
 			eq = !eq
 		}
 		return BoolV{e.P.Bool(eq)}
+	case *ssa.Function, NativeFn, BuiltinV: // func values compare with nil only; these are non-nil
+		return BoolV{e.P.Bool(op == token.NEQ)}
 	}
 	panic(unsupported{fmt.Sprintf("binop %s on %T", op, a)})
 }
